@@ -461,3 +461,111 @@ Proof.
   split; [match goal with |- Forall hdr_ok ?l => let x := eval vm_compute in l in change l with x end; repeat constructor|].
   split; vm_compute; reflexivity.
 Qed.
+
+(* ------------------------------------------------------------------ generated definitions (Gen.v)
+   Gen.v is regenerated from the Go sources on every run by harness/cmd/go2coq (spec: props/C03/gen.json,
+   trusted extern: sort.Search -> GenPrelude.sort_Search). The theorems below tie the GENERATED definitions of
+   lids.Table (all accessors), narrowLIDsRange of both LID iterators and the token.TableEntry arithmetic to the
+   hand-written model functions the theorems above are about (adj_min, chunks_count, first_block, last_block,
+   has_prev, has_next, narrow_asc, narrow_desc: C03_lids_roundtrip, C03_lids_tables_equal, C03_form_independent;
+   te_covers and the index read by val_of_tid: C03_token_table_exact): a change of one of these Go functions
+   changes Gen.v and the corresponding theorem stops compiling. *)
+From VLib Require GoSem.
+From C03 Require Import GenPrelude Gen ProofsGenT.
+Local Open Scope Z_scope.
+
+(* the trusted extern sort_Search (65 rounds) computes exactly the model's transcription of sort.Search on every
+   predicate that does not panic below n, for every n < 2^64: in particular it never runs out of fuel *)
+Theorem C03_gen_sort_Search_adequate : forall (f : nat -> bool) (F : Z -> GoSem.outcome bool) (n : nat),
+  (forall h, (h < n)%nat -> F (Z.of_nat h) = GoSem.Val (f h)) -> Z.of_nat n < 18446744073709551616 ->
+  sort_Search (Z.of_nat n) F = GoSem.Val (Z.of_nat (sort_search n f)).
+Proof. exact sort_Search_nat. Qed.
+Print Assumptions C03_gen_sort_Search_adequate.
+
+Theorem C03_gen_GetAdjustedMinTID_refines : forall t i, tbl_ok t -> (i < length (t_min t))%nat ->
+  go_lids_Table_GetAdjustedMinTID (ztable t) (Z.of_nat i) = GoSem.Val (Z.of_N (adj_min t i)).
+Proof. exact gen_GetAdjustedMinTID_refines. Qed.
+Print Assumptions C03_gen_GetAdjustedMinTID_refines.
+
+Theorem C03_gen_GetChunksCount_refines : forall t i, tbl_ok t -> (i < length (t_min t))%nat ->
+  (adj_min t i <= nthN (t_max t) i)%N -> (nthN (t_max t) i - adj_min t i + 1 < 4294967296)%N ->
+  go_lids_Table_GetChunksCount (ztable t) (Z.of_nat i) = GoSem.Val (Z.of_N (chunks_count t i)).
+Proof. exact gen_GetChunksCount_refines. Qed.
+Print Assumptions C03_gen_GetChunksCount_refines.
+
+Theorem C03_gen_GetChunkIndex_refines : forall t i tid, tbl_ok t -> (i < length (t_min t))%nat ->
+  (adj_min t i <= tid)%N -> (tid < 4294967296)%N ->
+  go_lids_Table_GetChunkIndex (ztable t) (Z.of_nat i) (Z.of_N tid) = GoSem.Val (Z.of_N (tid - adj_min t i)).
+Proof. exact gen_GetChunkIndex_refines. Qed.
+Print Assumptions C03_gen_GetChunkIndex_refines.
+
+Theorem C03_gen_HasTIDInPrevBlock_refines : forall t bi tid, tbl_ok t -> (bi <= length (t_max t))%nat ->
+  go_lids_Table_HasTIDInPrevBlock (ztable t) (Z.of_nat bi) (Z.of_N tid) = GoSem.Val (has_prev t bi tid).
+Proof. exact gen_HasTIDInPrevBlock_refines. Qed.
+Print Assumptions C03_gen_HasTIDInPrevBlock_refines.
+
+Theorem C03_gen_HasTIDInNextBlock_refines : forall t bi tid, tbl_ok t -> (bi < length (t_min t))%nat ->
+  go_lids_Table_HasTIDInNextBlock (ztable t) (Z.of_nat bi) (Z.of_N tid) = GoSem.Val (has_next t bi tid).
+Proof. exact gen_HasTIDInNextBlock_refines. Qed.
+Print Assumptions C03_gen_HasTIDInNextBlock_refines.
+
+(* the block where iter_desc / iter_asc start (C03_lids_roundtrip): same value, same panics *)
+Theorem C03_gen_GetFirstBlockIndexForTID_refines : forall t tid, tbl_ok t ->
+  go_lids_Table_GetFirstBlockIndexForTID (ztable t) (Z.of_N tid) = res_out Z.of_nat (first_block t tid).
+Proof. exact gen_GetFirstBlockIndexForTID_refines. Qed.
+Print Assumptions C03_gen_GetFirstBlockIndexForTID_refines.
+
+Theorem C03_gen_GetLastBlockIndexForTID_refines : forall t tid, tbl_ok t ->
+  go_lids_Table_GetLastBlockIndexForTID (ztable t) (Z.of_N tid) = res_out Z.of_nat (last_block t tid).
+Proof. exact gen_GetLastBlockIndexForTID_refines. Qed.
+Print Assumptions C03_gen_GetLastBlockIndexForTID_refines.
+
+(* narrowLIDsRange of both iterators as generated (two sort.Search closures, two re-slicings, nil results) =
+   narrow_asc / narrow_desc on every chunk (an empty chunk panics in both) *)
+Theorem C03_gen_narrowLIDsRange_asc_refines : forall lo hi l try, Z.of_nat (length l) < two32z ->
+  go_lids_IteratorAsc_narrowLIDsRange (mk_go_IteratorAsc (Z.of_N lo) (Z.of_N hi)) (zl l) try = narrow_out (narrow_asc lo hi l try).
+Proof. exact gen_narrowLIDsRange_asc_refines. Qed.
+Print Assumptions C03_gen_narrowLIDsRange_asc_refines.
+
+Theorem C03_gen_narrowLIDsRange_desc_refines : forall lo hi l try, Z.of_nat (length l) < two32z ->
+  go_lids_IteratorDesc_narrowLIDsRange (mk_go_IteratorDesc (Z.of_N lo) (Z.of_N hi)) (zl l) try = narrow_out (narrow_desc lo hi l try).
+Proof. exact gen_narrowLIDsRange_desc_refines. Qed.
+Print Assumptions C03_gen_narrowLIDsRange_desc_refines.
+
+Theorem C03_gen_getLastTID_refines : forall e, entry_ok e ->
+  go_token_TableEntry_getLastTID (zentry e) = Z.of_N (te_tid e + te_cnt e - 1).
+Proof. exact gen_getLastTID_refines. Qed.
+Print Assumptions C03_gen_getLastTID_refines.
+
+(* checkTIDInBlock as generated = te_covers, the test find_entry / GetEntryByTID uses (C03_token_table_exact) *)
+Theorem C03_gen_checkTIDInBlock_refines : forall e tid, entry_ok e -> (tid < 4294967296)%N ->
+  go_token_TableEntry_checkTIDInBlock (zentry e) (Z.of_N tid) = te_covers e tid.
+Proof. exact gen_checkTIDInBlock_refines. Qed.
+Print Assumptions C03_gen_checkTIDInBlock_refines.
+
+(* getIndexInTokensBlock as generated = the position val_of_tid reads in the physical block *)
+Theorem C03_gen_getIndexInTokensBlock_refines : forall e tid, (te_tid e <= tid)%N -> (tid < 4294967296)%N ->
+  (te_sidx e + tid - te_tid e < 4294967296)%N ->
+  go_token_TableEntry_getIndexInTokensBlock (zentry e) (Z.of_N tid) = Z.of_N (te_sidx e + tid - te_tid e).
+Proof. exact gen_getIndexInTokensBlock_refines. Qed.
+Print Assumptions C03_gen_getIndexInTokensBlock_refines.
+
+(* non-vacuity: a two-block table with a continued second block; the generated functions compute *)
+Example C03_gen_witness :
+  let t := mk_go_Table 0 [3; 7] [1; 4] [false; true] in
+  go_lids_Table_GetAdjustedMinTID t 1 = GoSem.Val 3 /\
+  go_lids_Table_GetChunksCount t 1 = GoSem.Val 5 /\
+  go_lids_Table_GetFirstBlockIndexForTID t 3 = GoSem.Val 0 /\
+  go_lids_Table_GetLastBlockIndexForTID t 3 = GoSem.Val 1 /\
+  go_lids_Table_GetFirstBlockIndexForTID t 8 = GoSem.Panic /\
+  go_lids_Table_HasTIDInNextBlock t 0 3 = GoSem.Val true /\
+  go_lids_IteratorAsc_narrowLIDsRange (mk_go_IteratorAsc 4 8) [2; 4; 6; 8; 10] true = GoSem.Val ([4; 6; 8], false) /\
+  go_lids_IteratorDesc_narrowLIDsRange (mk_go_IteratorDesc 4 8) [] true = GoSem.Panic /\
+  tbl_ok (mkTable [1; 4]%N [3; 7]%N [false; true]).
+Proof.
+  cbv zeta. repeat split; try (vm_compute; reflexivity).
+  - unfold two32z. vm_compute. reflexivity.
+  - destruct i as [|[|[|i]]]; vm_compute; reflexivity.
+  - destruct i as [|[|[|i]]]; vm_compute; reflexivity.
+  - destruct i as [|[|[|i]]]; vm_compute; intros H; try discriminate H; reflexivity.
+Qed.
